@@ -447,3 +447,44 @@ def family_cases(fam: Dict[str, Any]) -> Iterator[Dict[str, Any]]:
                         case = make_case(length, False, spans, strands_for(count, serial), hits, rules)
                         if valid_case(case):
                             yield case
+
+
+# ----------------------------------------------------------------------------------------------
+#  what C07 needs from the C03 oracle: the areas a record should yield, and their regions
+# ----------------------------------------------------------------------------------------------
+
+def expected_areas(case: Dict[str, Any]) -> List[Tuple[str, List[int], Any]]:
+    """ (rule, chain, bases of the protocluster) for every maximal chain of every rule, extender
+        genes admitted generously and nothing dropped for SUPERIORS (an over-approximation of what
+        may be reported, used only to decide whether the regions stay below half the record) """
+    geo = Geometry(case)
+    areas = []
+    for rule in case["rules"]:
+        anchors = expected_anchors(case, rule, geo)
+        for group in chains(anchors, rule["cut"], geo):
+            members = list(group)
+            if rule.get("ext"):
+                _, may = extender_closures(case, rule, group, geo)
+                members += sorted(may)
+            for span in geo.spans(members):
+                areas.append((rule["n"], list(group), model.widen(span, rule["nb"], geo.length, geo.circular)))
+    return areas
+
+
+def expected_region_sizes(case: Dict[str, Any]) -> List[int]:
+    """ sizes (smallest covering span) of the connected components of overlapping expected areas """
+    areas = expected_areas(case)
+    comps = model.components(list(range(len(areas))), lambda i, j: bool(areas[i][2] & areas[j][2]))
+    sizes = []
+    for comp in comps:
+        union: Set[int] = set()
+        for i in comp:
+            union |= areas[i][2]
+        sizes.append(model.smallest_spans(union, case["L"], bool(case["circ"]))[0][1])
+    return sizes
+
+
+def regions_below_half(case: Dict[str, Any]) -> bool:
+    """ the premise of C07's rotation clause: every region spans less than half the record """
+    sizes = expected_region_sizes(case)
+    return bool(sizes) and all(2 * size < case["L"] for size in sizes)
